@@ -17,7 +17,7 @@
    build would, and satisfy C01. Power-loss reordering below the file-system API is not modelled. *)
 From Coq Require Import Relations.
 From Ruler Require Import Bytes AList RuleSyntax TopoSort World Cmdlang Work Build Ops Inv BuildSpec Ideal InvFacts C01Hist C01Facts C11Facts
-     Acts ActsFacts.
+     Acts ActsFacts F6Facts.
 
 Theorem C11_crash_state_recovers : forall w w' : world sym,
   disk_inv sym_eqb SContent w -> no_bad_state_files sym sym_eqb w ->
@@ -130,6 +130,18 @@ Theorem C11_crash_ok_after_every_history : forall t0 (ops : list (op sym)),
   Forall (fun o => match o with OSetTable _ | OSetHist _ _ => False | _ => True end) ops ->
   crash_ok_sym (fold_left (fun w o => fst (apply_op sym_eqb SContent SList SRule w o)) ops (init_world Fine t0)).
 Proof. exact history_crash_ok_sym. Qed.
+
+(* After the repair of F6 (build.rs saves the table without the entries of the files it handles BEFORE any worker
+   starts): at every crash point strictly inside a build — after the initial actions, before the final write — the
+   table on disk has NO entry for any leaf or target of the plan, so what it remembers can never describe a file
+   that a worker has since replaced. No hypothesis about the clock or the hashes: this is what makes a kill safe
+   under a coarse clock too (suite crash_coarse found the defect and now checks the repair). *)
+Theorem C11_no_stale_table_entry_inside_a_build : forall (w : world sym) goal w1 t pack k tbl,
+  init_dir sym w = Ok (w1, t) -> get_nodes sym w1 RULES_PATH goal = Ok pack ->
+  (length (init_acts w) < k < length (build_acts_sym w RULES_PATH goal))%nat ->
+  rd_table (w_rd (run_acts_sym (firstn k (build_acts_sym w RULES_PATH goal)) w)) = Some (SF_ok tbl) ->
+  forall p, In p (p_leaves pack) \/ In p (plan_targets pack) -> alookup bytes_eqb tbl p = None.
+Proof. exact f6_no_stale_entries_at_sym. Qed.
 
 Check C11_crash_state_recovers.
 Check C11_every_crash_point_of_a_build.
